@@ -112,3 +112,8 @@ Proof. repeat split; reflexivity. Qed.
 From SymfcG Require Import ShapesSolvers SkelSolvers ShapesSpg ShapesReps SkelSpg.
 Theorem c03_code_path_in_force : ShapesSolvers_as_recorded = true /\ SkelSolvers_as_recorded = true /\ ShapesSpg_as_recorded = true /\ ShapesReps_as_recorded = true /\ SkelSpg_as_recorded = true.
 Proof. repeat split; reflexivity. Qed.
+
+(** Further code on this property's path (the sum rule is demanded of the result of the whole basis construction, with and without cutoff) is the recorded source: whole-function / skeleton match, regenerated on every run. *)
+From SymfcG Require Import ShapesCombos ShapesCoset ShapesGeom ShapesAuxCut SkelIdx SkelCut.
+Theorem c03_code_path3_in_force : ShapesCombos_as_recorded = true /\ ShapesCoset_as_recorded = true /\ ShapesGeom_as_recorded = true /\ ShapesAuxCut_as_recorded = true /\ SkelIdx_as_recorded = true /\ SkelCut_as_recorded = true.
+Proof. repeat split; reflexivity. Qed.
